@@ -51,6 +51,51 @@ fn secrets(s: &dyn crate::sut::Sut, cfg: &ArcCfg, ops: &[WOp]) -> Result<(Vec<u8
     Ok((img, (k, n, eph)))
 }
 
+/// fork() without exec: the child inherits the whole memory image of this process (every generator state included),
+/// writes ONE archive and sends its secrets back through a pipe
+fn forked_secrets(cfg: &ArcCfg, ops: &[WOp]) -> Result<([u8; 32], [u8; 8], [u8; 32]), String> {
+    let mut fds = [0i32; 2];
+    if unsafe { libc::pipe(fds.as_mut_ptr()) } != 0 {
+        return Err("pipe".into());
+    }
+    let pid = unsafe { libc::fork() };
+    if pid < 0 {
+        return Err("fork".into());
+    }
+    if pid == 0 {
+        let line = match secrets(sut(&cfg.variant), cfg, ops) {
+            Ok((_, (k, n, e))) => format!("{} {} {}\n", hex::encode(k), hex::encode(n), hex::encode(e)),
+            Err(_) => "ERR\n".to_string(),
+        };
+        unsafe {
+            libc::write(fds[1], line.as_ptr().cast(), line.len());
+            libc::_exit(0);
+        }
+    }
+    unsafe { libc::close(fds[1]) };
+    let mut got = Vec::new();
+    let mut buf = [0u8; 256];
+    loop {
+        let n = unsafe { libc::read(fds[0], buf.as_mut_ptr().cast(), buf.len()) };
+        if n <= 0 {
+            break;
+        }
+        got.extend_from_slice(&buf[..n as usize]);
+    }
+    unsafe {
+        libc::close(fds[0]);
+        let mut st = 0i32;
+        libc::waitpid(pid, &mut st, 0);
+    }
+    let t = String::from_utf8_lossy(&got).to_string();
+    let parts: Vec<Vec<u8>> = t.split_whitespace().map(|h| hex::decode(h).unwrap_or_default()).collect();
+    if parts.len() == 3 && parts[0].len() == 32 && parts[1].len() == 8 && parts[2].len() == 32 {
+        Ok((parts[0].clone().try_into().unwrap(), parts[1].clone().try_into().unwrap(), parts[2].clone().try_into().unwrap()))
+    } else {
+        Err(format!("forked child: {t:?}"))
+    }
+}
+
 /// child process: write the archive of `case` once and print its secrets
 pub fn child_main(case_json: &str) -> i32 {
     let Ok(case) = serde_json::from_str::<Case>(case_json) else { return 2 };
@@ -72,7 +117,7 @@ impl Prop for C07 {
         "exploration"
     }
     fn rule(&self) -> String {
-        "run = one seeded encrypted workload (E or C+E, 1..4 recipients - one run in 12: 9, 17, 85, 129, 257 or 300, of which the first, second, 9th, middle, 256th/257th, last ones and two random ones are tried -, names and contents made of unique high-entropy markers, sizes around the 4 KiB cipher buffer and the 128 KiB chunk) on the unmodified `prod` build, or on `prodv` with NO seed installed in hook H2 (showing the hook is inert by default); the real OS generator is used. The same operations are executed 8 times in the worker process - five times on the worker's thread, three times each on a thread of its own (spawned and joined at once) - and, on one run in eight, once in each of two freshly spawned processes as their first action: symmetric key (from get_encrypt_parameters), archive nonce and ephemeral public key must be pairwise distinct over all these archives. Sink monitor: no 16-byte marker of any content and no file name occurs anywhere in the bytes the sink received after the header (searched on the whole stored stream, so a marker split across writes is seen). Key lists: every recipient opens the archive and reads it back, alone and at the first three positions among decoy keys (now and then behind 9..40 decoys); lists without a recipient key, and the empty list, fail to open. distinct_nontrivial = distinct (variant, layers, recipients, reader position class, size class, cross-process?) signatures.".into()
+        "run = one seeded encrypted workload (E or C+E, 1..4 recipients - one run in 12: 9, 17, 85, 129, 257 or 300, of which the first, second, 9th, middle, 256th/257th, last ones and two random ones are tried -, names and contents made of unique high-entropy markers, sizes around the 4 KiB cipher buffer and the 128 KiB chunk) on the unmodified `prod` build, or on `prodv` with NO seed installed in hook H2 (showing the hook is inert by default); the real OS generator is used. The same operations are executed 8 times in the worker process - five times on the worker's thread, three times each on a thread of its own (spawned and joined at once) - and, on one run in eight, once in a FORKED copy of the worker (fork without exec: same memory image), once more in the worker right after the fork, and once in each of two freshly spawned processes as their first action: symmetric key (from get_encrypt_parameters), archive nonce and ephemeral public key must be pairwise distinct over all these archives. Sink monitor: no 16-byte marker of any content and no file name occurs anywhere in the bytes the sink received after the header (searched on the whole stored stream, so a marker split across writes is seen). Key lists: every recipient opens the archive and reads it back, alone and at the first three positions among decoy keys (now and then behind 9..40 decoys); lists without a recipient key, and the empty list, fail to open. distinct_nontrivial = distinct (variant, layers, recipients, reader position class, size class, cross-process?) signatures.".into()
     }
     fn assumptions(&self) -> Vec<String> {
         vec![
@@ -177,6 +222,23 @@ impl Prop for C07 {
             }
         }
         if case.param("cross", 0) == 1 {
+            // a forked copy of this process (same memory image, this thread having created archives already) writes one
+            // archive; so does this process right afterwards: the two must not share a secret
+            ctx.eval();
+            match forked_secrets(&case.cfg, &case.ops) {
+                Ok((k, n, e)) => {
+                    crate::seams::fired("process_forked_after_archives_were_created");
+                    add(k, n, e, "forked-child", &mut v, &mut total);
+                }
+                Err(e) => crate::runner::harness_error(&format!("c07 fork: {e}")),
+            }
+            match secrets(s, &case.cfg, &case.ops) {
+                Ok((_, (k, n, e))) => add(k, n, e, "parent-after-fork", &mut v, &mut total),
+                Err(e) => {
+                    v.push(Violation::new("workload-write-failed", "write", e));
+                    return v;
+                }
+            }
             // two fresh processes, the archive is the first thing each does
             let exe = std::env::current_exe().expect("exe");
             let js = serde_json::to_string(case).unwrap();
